@@ -23,7 +23,7 @@ func init() {
 			"Does not decide: that the separations make numbers collision-free for every geometry (arithmetic over configurations), uniqueness of names end to end.",
 		RuleDocs: []string{
 			"C19.R6 slices.Compact / CompactFunc only on a list sorted by a dominating call; the Lancero configuration step contains a known form of already-listed test",
-			"C19.R1 abstract interpretation of shifts/masks/ors with constant operands in the packer and the four accessors",
+			"C19.R1 abstract interpretation of shifts/masks/ors with constant operands in the packer and the four accessors; the column handed to the packer is a loop index (possibly of the caller) or a constant below a constant count; a column that is the length of a table which only grows while the loop over the cards runs, given with one card's column count, is reported",
 			"C19.R2 index agreement in the processor-construction loop",
 			"C19.R3 structure of the numbering loops (SSA values: same number in both names, increments)",
 			"C19.R4 dominance of rejections over table stores; loop-unconditional checks; overlap-check idioms by polynomial congruence",
